@@ -275,14 +275,28 @@ def verify_unit(unit, tier):
             tblocks = parse_verus_stderr(tv['stderr'])
             if tv['json'] is None or 'verified' not in tv['json']['verification-results'] or tv['json']['verification-results'].get('encountered-vir-error') or any(b['level'].startswith('error[') for b in tblocks):
                 raise RuntimeError('twin file rejected by verus: ' + tv['stderr'][-800:])
-            failed_twins = set()
-            for b in tblocks:
-                if b['level'] == 'error' and classify(b['msg']):
-                    for ln in [b['line']] + b['lines']:
-                        if ln:
-                            for t in twins:
-                                if t['gen_line_start'] <= ln <= t['gen_line_end']:
-                                    failed_twins.add(t['id'])
+            def twin_hits(blocks, pred):
+                hit = set()
+                for b in blocks:
+                    if b['level'] == 'error' and pred(b['msg']):
+                        for ln in [b['line']] + b['lines']:
+                            if ln:
+                                for t in twins:
+                                    if t['gen_line_start'] <= ln <= t['gen_line_end']:
+                                        hit.add(t['id'])
+                return hit
+            is_rlimit = lambda m: 'Resource limit (rlimit) exceeded' in m
+            failed_twins = twin_hits(tblocks, classify)
+            out_of_budget = twin_hits(tblocks, is_rlimit) - failed_twins
+            if out_of_budget:
+                # the solver ran out of budget before refuting `false` (context-dependent; seen under bit-vector specs): once more
+                # with a larger budget. A twin that still is not PROVED is not vacuous — `false` was not derived — and is recorded.
+                tv2 = run_verus(tpath, rlimit=200)
+                tb2 = parse_verus_stderr(tv2['stderr'])
+                failed_twins |= twin_hits(tb2, classify)
+                still = (twin_hits(tb2, is_rlimit) | (out_of_budget if tv2['json'] is None else set())) - failed_twins
+                failed_twins |= still
+                res['twins_inconclusive'] = sorted(still)
             res['twins'] = dict(expected=len(twins), failed=len(failed_twins))
             vac = [t['id'] for t in twins if t['id'] not in failed_twins]
             if vac:
